@@ -17,6 +17,15 @@ struct valmap { vstr v[VM_CAP]; _Bool present[VM_CAP]; };
 static inline struct valmap valmap_new(void) { struct valmap m; for (int i = 0; i < VM_CAP; i++) { m.v[i] = vstr_new(); m.present[i] = 0; } return m; }
 static inline void valmap_set(struct valmap* m, int idx, const vstr* v) { __CPROVER_assert(idx >= 0 && idx < VM_CAP, "model: known field index"); m->v[idx] = *v; m->present[idx] = 1; }
 static inline const vstr* valmap_find(const struct valmap* m, const vstr* name, int idx) { (void)name; return (idx >= 0 && idx < VM_CAP && m->present[idx]) ? &m->v[idx] : NULL; }
+static inline void vstr_push(vstr* s, char c) { __CPROVER_assert(s->n < VSTR_CAP, "model capacity: string push beyond VSTR_CAP"); if (s->n < VSTR_CAP) { s->d[s->n] = c; s->n = s->n + 1; s->d[s->n] = 0; } }
+static inline void vstr_clear(vstr* s) { *s = vstr_new(); }
+static inline vstr vstr_prefix2(char a, char b, const vstr* t) { vstr r = vstr_new(); __CPROVER_assert(t->n + 2 <= VSTR_CAP, "model capacity: prefix beyond VSTR_CAP"); r.d[0] = a; r.d[1] = b; r.n = 2;
+  for (size_t i = 0; i < VSTR_CAP; i++) { if (i < t->n && i + 2 < VSTR_CAP) r.d[i + 2] = t->d[i]; } r.n = t->n + 2 <= VSTR_CAP ? t->n + 2 : VSTR_CAP; r.d[r.n] = 0; return r; }
+static inline _Bool vstr_eq_cstr(const vstr* s, const char* c) { size_t i = 0; _Bool eq = 1, end = 0;
+  for (i = 0; i <= VSTR_CAP; i++) { if (!end) { char x = c[i]; if (x == 0) { end = 1; if (s->n != i) eq = 0; } else if (i >= s->n || s->d[i] != x) { eq = 0; end = 1; } } }
+  return eq && end; }
+static inline struct part mk_part(const vstr* name, int idx) { struct part p; p.first = *name; p.second = idx; return p; }
+static inline void partvec_push(struct partvec* v, struct part p) { __CPROVER_assert(v->n < PCAP, "model capacity: more parts than PCAP"); if (v->n < PCAP) { v->e[v->n] = p; v->n = v->n + 1; } }
 static inline void env_normalize(vstr* s) { (void)s; __CPROVER_assert(0, "model: normalize is not used by the topic path"); }
 static inline void env_tolower(vstr* s) { (void)s; }   /* the harness uses lower case text only when ignoreCase is set */
 #include "gen_protos.h"
@@ -73,4 +82,44 @@ void h_topic_roundtrip(void) {
   if (!stopped && sr.m_parts.n == 5 && sent[0] && sent[1] && topic.n >= 8) { CANARY("five parts, circuit and name"); }
   if (stopped && sent[KNOWN_circuit] && sr.m_parts.n >= 4) { CANARY("cut before an empty field"); }
   if (r < 0) { CANARY("incomplete match"); }
+}
+
+/* StringReplacer::parse establishes the shape of the parts vector that get / match (and the round trip above) rely on */
+static inline int spec_known_index(const vstr* s) {
+  if (s->n == 7 && s->d[0] == 'c' && s->d[1] == 'i' && s->d[2] == 'r' && s->d[3] == 'c' && s->d[4] == 'u' && s->d[5] == 'i' && s->d[6] == 't') return KNOWN_circuit;
+  if (s->n == 4 && s->d[0] == 'n' && s->d[1] == 'a' && s->d[2] == 'm' && s->d[3] == 'e') return KNOWN_name;
+  if (s->n == 5 && s->d[0] == 'f' && s->d[1] == 'i' && s->d[2] == 'e' && s->d[3] == 'l' && s->d[4] == 'd') return KNOWN_field;
+  return KNOWN_COUNT;
+}
+void h_topic_parse(void) {
+  struct StringReplacer sr; sr.m_parts.n = nondet_size(); __CPROVER_assume(sr.m_parts.n <= PCAP); sr.m_emptyIfMissing = nondet_bool();
+  vstr t = nondet_vstr(); __CPROVER_assume(vstr_valid(&t));
+  for (size_t k = 0; k <= VSTR_CAP; k++) { if (k >= t.n) __CPROVER_assume(t.d[k] == 0); else __CPROVER_assume(t.d[k] != 0); }
+  _Bool onlyKnown = nondet_bool(), noDup = nondet_bool(), eim = nondet_bool();
+  _Bool ok = SR_parse(&sr, &t, onlyKnown, noDup, eim);
+  size_t k = nondet_size(); __CPROVER_assume(k < sr.m_parts.n);
+  const struct part* p = &sr.m_parts.e[k];
+  __CPROVER_assert(vstr_valid(&p->first), "[C18] every part text is a valid string");
+  if (p->second < 0) {
+    __CPROVER_assert(p->first.n > 0, "[C18] a parsed template has no empty constant");
+    __CPROVER_assert(k == 0 || sr.m_parts.e[k - 1].second >= 0, "[C18] adjacent constants of a parsed template are merged");
+  } else {
+    __CPROVER_assert(p->second == spec_known_index(&p->first), "[C18] the field index of a part is the position of its name among the known field names (circuit, name, field), otherwise the unknown index");
+    size_t j = nondet_size(); __CPROVER_assume(j < VSTR_CAP);
+    if (j < p->first.n) { char c = p->first.d[j]; __CPROVER_assert((c >= 'a' && c <= 'z') || (c >= 'A' && c <= 'Z') || c == '_', "[C18] a field name consists of letters and underscores"); }
+  }
+  size_t total = 0, pct = 0;
+  for (size_t i = 0; i < PCAP; i++) { if (i < sr.m_parts.n) total = total + sr.m_parts.e[i].first.n; }
+  for (size_t i = 0; i < VSTR_CAP; i++) { if (i < t.n && (t.d[i] == '%' || t.d[i] == '{' || t.d[i] == '}')) pct = pct + 1; }
+  __CPROVER_assert(total <= t.n + 1 && total + pct >= t.n, "[C18] the parts carry the template text (only %, { and } are dropped)");
+  if (pct == 0) { __CPROVER_assert(ok && sr.m_parts.n == (t.n > 0 ? 1 : 0) && (t.n == 0 || (sr.m_parts.e[0].second < 0 && vstr_equal(sr.m_parts.e[0].first, t))), "[C18] a template without field syntax is one constant"); }
+  if (ok) {
+    __CPROVER_assert(sr.m_emptyIfMissing == eim, "[C18] the missing-value mode is stored");
+    if (onlyKnown) { __CPROVER_assert(p->second < KNOWN_COUNT, "[C18] with onlyKnown an accepted template has no unknown field"); }
+    if (noDup) { size_t k2 = nondet_size(); __CPROVER_assume(k2 < sr.m_parts.n && k2 != k);
+      __CPROVER_assert(!(p->second >= 0 && p->second < KNOWN_COUNT && sr.m_parts.e[k2].second == p->second), "[C18] with noKnownDuplicates an accepted template uses each known field at most once"); }
+  }
+  if (ok && sr.m_parts.n >= 3 && p->second == KNOWN_name) { CANARY("template with %name"); }
+  if (!ok) { CANARY("template rejected"); }
+  if (sr.m_parts.n >= 4) { CANARY("four parts"); }
 }
